@@ -476,6 +476,28 @@ class Runner:
                 del self.frozen[:-4]
                 return self.A(t)
             return self.A(x, *[P.build_sarg(a, self.mod) for a in sargs])
+        pre_viol = []
+        if kind in ('deepcopy', 'pickle') and not sargs:
+            # a copy made by Python is an operand like the original: with the library as shipped (self-check off),
+            # text appended to it is as unformatted as text appended to the original
+            import copy as _copy, pickle as _pickle
+            core = sys.modules[self.A.__module__]
+            was = core.AnsiString.WITH_ASSERTIONS
+            core.AnsiString.WITH_ASSERTIONS = False
+            try:
+                def shipped():
+                    y_ = _copy.deepcopy(x) if kind == 'deepcopy' else _pickle.loads(_pickle.dumps(x))
+                    return ((y_ + 'q').settings_at(len(x._s)), (x + 'q').settings_at(len(x._s)),
+                            str(self.A('p') + y_ + 'q'), str(self.A('p') + x + 'q'))
+                r6 = self.call(shipped)
+            finally:
+                core.AnsiString.WITH_ASSERTIONS = was
+            if r6[0] != 'ok' or r6[1][0] != r6[1][1] or r6[1][2] != r6[1][3]:
+                pre_viol.append(('C05', 'iadd_plain_right', '%s of %r as an operand: %r' % (kind, x._s, r6[1])))
+                pre_viol.append(('C08', 'copy_eq', '%s of %r concatenates differently from the original: %r' % (kind, x._s, r6[1])))
+                self.emit('noop', None, None, '%s of %r as an operand' % (kind, x._s), pre_viol)
+                self.tainted = True
+                return
         (out), fv = self.framed([], lambda: self.call(run))
         self.count('copy', out)
         viol = self.c09(out, 'copy', kind) + fv
@@ -957,6 +979,9 @@ class Runner:
             out, fv = self.framed([], lambda: self.call(lambda: a + kv[1]))
         self.count('concat', out)
         viol = self.c09(out, 'concat', kv[0]) + fv
+        if out[0] == 'err':
+            # the operands are an AnsiString and a str / AnsiStr / AnsiString: concatenation is defined for them
+            viol.append(('C05', 'iadd_total', '%r + %s:%r raises %r' % (pre_a.text, kv[0], pre_b.text, out[1])))
         if out[0] == 'ok' and ref is not None and ref[0] == 'ok' and self.ttable(out[1]) != ref[1]:
             viol.append(('C08', 'inplace_eq', '+= leaves %r, + on copies gives %r' % (self.ttable(out[1]), ref[1])))
         if out[0] == 'ok':
